@@ -31,6 +31,7 @@ RULE = (
     "the declared target (self for add_*; nobody for derivations) changed. key = derivation x whether it had an effect x "
     "number of follow-up steps x second derivation; non-trivial = the derivation changed something relative to its "
     "input (result records differ) or follow-up steps merged into a shared record."
+    ' At scale (90-400 records) every product of remap_* / rewire is extended by merges into untouched records and the input compared afterwards (round 21).'
 )
 ASSUMPTIONS = ["'observably unchanged' is read as equality of the fingerprint listed in the rule (public attributes and query answers)"]
 
